@@ -134,6 +134,46 @@ example : runLog step (init 4 2 (fun a => a % 2 + 1) true true 2) pinnedTwoWinne
 example : runLog step (init 4 2 (fun a => a % 2 + 1) true true 2) pinnedLateRegistration = none := by decide
 
 
+
+/-- Pinned tree, plain OS threads: `get_self_id()` is the same invalid id on every OS thread
+    (`ident = fun _ => 0`), so `remove_callback` on thread 1 takes the "own thread" branch while
+    the callback runs on thread 0 inside `request_stop`: the destructor returns (and even sets
+    `*is_removed_`) while the callback is still running on another thread. -/
+def pinnedOsThreads : List Ev :=
+  [.inv 0 (.reg 0), .load 0 false false 2, .acq 0, .push 0 0 false, .ret 0 false,
+   .inv 0 .rs, .load 0 false false 2, .acq 0, .deq 0 0 false, .preExec 0 0, .cbBegin 0 0,
+   .inv 1 (.unreg 0), .load 1 false true 2, .acq 1, .unlink 1 0 false, .selfChk 1 0 true true,
+   .ret 1 false]
+
+theorem C14_pinned_os_thread_dtor_does_not_wait :
+    ∃ s, runLog step (init 4 2 (fun _ => 0) false false 2) pinnedOsThreads = some s ∧
+      s.life 0 = .dead ∧ s.running 0 = true ∧ s.owner 0 = 0 ∧ s.pc 1 = .idle ∧ s.remFlag 0 = true := by
+  refine ⟨_, rfl, ?_⟩
+  decide
+
+/-- with identities that tell the threads apart the same log is rejected at the comparison -/
+example : runLog step (init 4 2 (fun a => a % 2 + 1) false false 2) pinnedOsThreads = none := by decide
+
+/-- Pinned tree: a stop_callback constructed on a token whose state has no source left and no
+    stop request is not registered, but its destructor still calls `remove_callback`, which on a
+    pika task (identity differs from the default-constructed `signalling_thread_`) waits for
+    `callback_finished_executing_` — which nobody will ever set. -/
+def pinnedDtorHang : List Ev :=
+  [.inv 0 (.reg 0), .load 0 false false 0, .ret 0 false,
+   .inv 0 (.unreg 0), .load 0 false false 0, .acq 0, .unlink 0 0 false, .selfChk 0 0 false false]
+
+theorem C14_pinned_dtor_waits_for_ever :
+    ∃ s, runLog step (init 2 1 (fun a => a % 1 + 1) false false 0) pinnedDtorHang = some s ∧
+      s.pc 0 = .wait 0 ∧ s.fin 0 = false ∧ s.runs 0 = 0 ∧ s.running 0 = false ∧ s.req = false ∧
+      s.srcs = 0 ∧ s.pc 1 = .idle := by
+  refine ⟨_, rfl, ?_⟩
+  decide
+
+/-- repaired constructor: the destructor returns at once -/
+example : (runLog step (init 2 1 (fun a => a % 1 + 1) true true 0)
+    [.inv 0 (.reg 0), .load 0 false false 0, .ret 0 false, .inv 0 (.unreg 0), .ret 0 false]).isSome = true := by
+  decide
+
 /-! ## Reference-count histories (model `PikaVerif.StopRef`) -/
 
 /-- **stop_possible.**  After every history of construction, copy, move, copy-assignment,
